@@ -54,3 +54,4 @@ int cmd_namematch(int, char**);
 int cmd_trace(int, char**);
 int cmd_json(int, char**);
 int cmd_promela(int, char**);
+int cmd_lua(int, char**);
